@@ -492,6 +492,8 @@ def run(tier, seed):
     par.pmap(work_history, hist, stats=st, chunk=4)
     from props import delivery as _DL
     par.pmap(_DL.work, _DL.tasks(tier), extra=(('notes',),), stats=st, chunk=12)
+    from props import decor as _DC
+    par.pmap(_DC.work, _DC.tasks(tier), extra=(('rating',),), stats=st, chunk=8)
     # comma lists through --lookup
     for cat in ('kex', 'key', 'enc', 'mac'):
         names = H.db_names(cat)[:6]
